@@ -288,14 +288,73 @@ def p6(repo, res):
     res.require(n >= 6, f"P6: only {n} np.pad calls found in the pose code")
 
 
+def _rank(e, env):
+    """('quat', rank) / ('rot', 'single'|'stack') / None for an expression of the None branch (SciPy/NumPy construction table)"""
+    if isinstance(e, ast.Name):
+        return env.get(e.id)
+    if isinstance(e, (ast.Tuple, ast.List)):
+        if e.elts and all(isinstance(x, (ast.Constant, ast.UnaryOp)) for x in e.elts):
+            return ("quat", 1)
+        inner = [_rank(x, env) for x in e.elts]
+        if inner and all(i and i[0] == "quat" for i in inner):
+            return ("quat", inner[0][1] + 1)
+        return None
+    if isinstance(e, ast.Call) and isinstance(e.func, ast.Attribute):
+        a, base = e.func.attr, e.func.value
+        if a in ("array", "asarray") and e.args:
+            return _rank(e.args[0], env)
+        if a == "from_quat" and e.args:
+            r = _rank(e.args[0], env)
+            return ("rot", "single" if r[1] == 1 else "stack") if r and r[0] == "quat" else None
+        if a == "identity" and ast.unparse(base) in ("Rotation", "R"):
+            none_arg = not e.args and not e.keywords or (e.args and isinstance(e.args[0], ast.Constant) and e.args[0].value is None)
+            return ("rot", "single" if none_arg else "stack")
+        if a == "as_quat":
+            r = _rank(base, env)
+            return ("quat", 1 if r[1] == "single" else 2) if r and r[0] == "rot" else None
+    return None
+
+
+def p7(repo, res):
+    """P7: `rotate(None)` / `orientation=None` is the *single* identity rotation: in check_format_input_orientation the value of
+    inpQ on the None path has rank 1 (a stack of one rotation is a path operation: it appends instead of applying to the whole path)"""
+    fn = repo.func("magpylib._src.input_checks", "check_format_input_orientation")
+    rel = "magpylib/_src/input_checks.py"
+    p = fn.args.args[0].arg
+    branch = None
+    for i, s in enumerate(fn.body):
+        if isinstance(s, ast.If) and isinstance(s.test, ast.Compare) and isinstance(s.test.ops[0], ast.Is) and ast.unparse(s.test.left) == p \
+                and isinstance(s.test.comparators[0], ast.Constant) and s.test.comparators[0].value is None:
+            branch = (i, s)
+    res.require(branch is not None, "anchor vanished: `if inp is None` in check_format_input_orientation")
+    i, iff = branch
+    env = {}
+    for s in list(iff.body) + [x for x in fn.body[i + 1:] if isinstance(x, ast.Assign)]:
+        if isinstance(s, ast.Assign) and len(s.targets) == 1 and isinstance(s.targets[0], ast.Name):
+            env[s.targets[0].id] = _rank(s.value, env)
+    rets = [r for r in ast.walk(fn) if isinstance(r, ast.Return) and isinstance(r.value, ast.Tuple) and len(r.value.elts) == 2]
+    res.require(rets, "anchor vanished: `return inp, inpQ` in check_format_input_orientation")
+    q = rets[0].value.elts[1]
+    r = _rank(q, env)
+    ok = r == ("quat", 1)
+    res.ob("P7:None is the single identity rotation", ok or r is None, {"rule": "P7", "quaternion_on_None_path": repr(r), "bindings": {k: repr(v) for k, v in env.items()}})
+    if r is None:
+        res.undecided.append("P7: rank of the quaternion returned for orientation=None not determined from the construction table")
+    elif not ok:
+        res.add(Finding("P7", rel, "check_format_input_orientation", iff, f"for None the validator returns a quaternion of rank {r[1]} (a stack of rotations): "
+                        "rotate(None) is then treated as vector input and appended to the path instead of being applied to the whole path", iff.lineno))
+
+
 def run(repo, res, tier):
-    res.rules = ["P1 composition/anchoring (FRAME)", "P2 rotate_from_* delegation", "P3 reject-before-mutate", "P4 paired pose writes / who-may-write"]
+    res.rules = ["P1 composition/anchoring (FRAME)", "P2 rotate_from_* delegation", "P3 reject-before-mutate", "P4 paired pose writes / who-may-write", "P5 in-place pose writes", "P6 one padding computation",
+                 "P7 None is the single identity rotation"]
     frame_rules.c09_p1(repo, res)
     p2(repo, res)
     p3(repo, res)
     p4(repo, res)
     p4b(repo, res)
     p6(repo, res)
+    p7(repo, res)
     import origin_rules
     origin_rules.pose_mutations(repo, res, rule="P5")
     res.assumptions += ["SciPy/NumPy calls after the first in-place write do not raise (shapes are made consistent by path_padding before)",
